@@ -5,6 +5,7 @@ per line.  See harness/streams/lca.py for the op list.
 -/
 import SmVerif.Model.LcaDb
 import SmVerif.Model.LcaIndex
+import SmVerif.Model.LcaCli
 import SmVerif.Model.Proto
 
 namespace Sm.DriverLca
@@ -81,6 +82,45 @@ def mkSig (name filename : String) (scaled num ksize : Nat) (hs : List Nat) (mol
     let kept := if num = 0 then Dict.sortAsc (hs.filter (· ≤ mhR scaled)) else (Dict.sortAsc hs).take num
     some { name, filename, ksize, moltype, num, scaled, hashes := kept, md5 }
 
+/-- `load_databases([...], scaled)`: every database is loaded from its file (JSON round trip; a SQLite file
+    comes back at its stored scaled) and downsampled when `scaled` is larger -/
+def loadForCli (x : AnyDb) (scaled : Nat) : Option AnyDb :=
+  match x with
+  | .mem db =>
+    let d := db.jsonRoundTrip
+    if scaled ≠ 0 ∧ scaled > d.scaled then
+      (match d.downsampleScaled scaled with | .ok d' => some (.mem d') | .error _ => none)
+    else some (.mem d)
+  | .sql s =>
+    let s0 := { s with scaled := s.storedScaled }
+    if scaled ≠ 0 ∧ scaled > s0.scaled then
+      (match s0.downsampleScaled scaled with | .ok s' => some (.sql s') | .error _ => none)
+    else some (.sql s0)
+
+def anyKsize : AnyDb → Nat | .mem db => db.ksize | .sql s => s.ksize
+def anyMol : AnyDb → Nat | .mem db => db.moltype | .sql s => s.moltype
+def anyScaled : AnyDb → Nat | .mem db => db.scaled | .sql s => s.scaled
+
+def lookDb (minNum : Nat) (x : AnyDb) (h : Nat) : List Lineage :=
+  match x with
+  | .mem db => (match db.getLineageAssignments h minNum with | .ok l => l | .error _ => [])
+  | .sql s => (match s.getLineageAssignments h minNum with | .ok l => l | .error _ => [])
+
+def anyHashvals : AnyDb → List Nat | .mem db => db.hashvals | .sql s => s.hashvals
+
+def showNames (l : List Nat) : String := ".".intercalate (l.map toString)
+
+/-- the databases of a CLI command after `load_databases`; `Except` = what the command dies of -/
+def cliDbs (st : St) (ds : List Nat) (scaled : Nat) : Option (Except String (List AnyDb)) :=
+  match ds.mapM (getDb st) with
+  | none => none
+  | some xs =>
+    match xs.mapM (fun x => loadForCli x scaled) with
+    | none => some (.error "ValueError")
+    | some dbs =>
+      if (dbs.map anyKsize).eraseDups.length > 1 ∨ (dbs.map anyMol).eraseDups.length > 1 then some (.error "Exception")
+      else some (.ok dbs)
+
 /-- optional trailing `mol=<n>` / `md5=<hex>` tokens -/
 def optTok (key : String) (ws : List String) : Option String :=
   (ws.find? (fun w => w.startsWith (key ++ "="))).map (fun w => (w.drop (key.length + 1)).toString)
@@ -108,7 +148,8 @@ def step (st : St) (line : String) : St × String :=
     | some [r, scaled, num, ksize], some hs =>
       let mol := ((optTok "mol" opts).bind nat?).getD 0
       let md5 := (optTok "md5" opts).getD ""
-      match mkSig (nameOf name) (nameOf filename) scaled num ksize hs mol md5 with
+      match (mkSig (nameOf name) (nameOf filename) scaled num ksize hs mol md5).map
+          (fun s => { s with track := (optTok "ab" opts) = some "1" }) with
       | some s =>
         -- the structural name splitting of the model against `String.splitOn`
         if firstWord s.name ≠ (s.name.splitOn " ").headD "" ∨ dotPrefix s.name ≠ (s.name.splitOn ".").headD "" then
@@ -256,6 +297,127 @@ def step (st : St) (line : String) : St × String :=
              | some l => joinOr "," (l.map toString)
              | none => "-"))
     | _, _ => bad
+  | ["clisumm", ds, qs, thr, scaled, ign] =>
+    match natList? ds, natList? qs, nats? [thr, scaled], bool? ign with
+    | some ds, some qs, some [thr, scaled], some ign =>
+      match cliDbs st ds scaled, qs.mapM (fun r => Dict.get? st.sigs r) with
+      | some (.error e), some _ => (st, "err " ++ e)
+      | some (.ok dbs), some sgs =>
+        let look := fun h => dbs.map (fun x => lookDb 0 x h)
+        let sc := (dbs.map anyScaled).headD 1
+        let ks := (dbs.map anyKsize).headD 0
+        let blocks := (sgs.filter (fun sg => sg.ksize = ks)).mapM (fun sg =>
+          match LcaCli.summarizeOne look thr ign sc sg with
+          | .error e => (.error e : Except String String)
+          | .ok (agg, total) => match LcaCli.csvRows agg with
+            | none => .error "ValueError"
+            | some rows =>
+              -- a query without rows leaves no trace in the CSV
+              .ok (if rows.isEmpty then "" else tokOf sg.str ++ ":" ++ toString total ++ ":" ++
+                joinOr "|" (sortStrs (rows.map (fun (r : List Nat × Nat) => showNames r.1 ++ "=" ++ toString r.2)))))
+        (st, match blocks with
+          | .ok bs => "ok " ++ joinOr "/" (bs.filter (· ≠ ""))
+          | .error e => "err " ++ e)
+      | _, _ => bad
+    | _, _, _, _ => bad
+  | ["clicls", ds, qs, thr, scaled, maj] =>
+    match natList? ds, natList? qs, nats? [thr, scaled], bool? maj with
+    | some ds, some qs, some [thr, scaled], some maj =>
+      -- `--scaled` reaches `downsample_scaled` as a float unless `classify` converts it: `MinHash(scaled=100.0)`
+      -- is a TypeError (in `LCA_Database.downsample_scaled`; for the SQLite form at the first hash looked up)
+      let raw := ((ds.mapM (getDb st)).getD [])      -- a missing handle: `cliDbs` answers bad-op below
+      let floatScaled := !Gen.clsScaledInt && scaled != 0
+      let memNeeds := floatScaled && raw.any (fun x => match x with | .mem db => decide (db.scaled < scaled) | .sql _ => false)
+      let sqlNeeds := floatScaled && Gen.sqlDownHonoured &&
+        raw.any (fun x => match x with | .sql s => decide (s.storedScaled < scaled) | .mem _ => false)
+      match (if memNeeds then some (.error "TypeError") else cliDbs st ds scaled),   -- (memNeeds ⇒ all handles exist)
+            qs.mapM (fun r => Dict.get? st.sigs r) with
+      | some (.error e), some _ => (st, "err " ++ e)
+      | some (.ok dbs), some sgs =>
+        let look := fun h => dbs.map (fun x => lookDb 0 x h)
+        let sc := (dbs.map anyScaled).headD 1
+        let ks := (dbs.map anyKsize).headD 0
+        let rows := (sgs.filter (fun sg => sg.ksize = ks)).mapM (fun sg =>
+          match LcaCli.classifyOne look thr maj sc sg with
+          | .error e => (.error e : Except String String)
+          | .ok (lin, status) =>
+            if sqlNeeds && (match sg.downTo sc with | .ok hs => !hs.isEmpty | .error _ => false) then .error "TypeError"
+            else match LcaCli.zipLineage lin false with
+            | none => .error "ValueError"
+            | some names =>
+              let stat := match status with | .nomatch => "nomatch" | .found => "found" | .disagree => "disagree"
+              .ok (tokOf sg.str ++ ":" ++ stat ++ ":" ++ showNames names))
+        (st, match rows with
+          | .ok bs => "ok " ++ joinOr "/" bs
+          | .error e => "err " ++ e)
+      | _, _ => bad
+    | _, _, _, _ => bad
+  | ["clirank", ds, scaled, minNum] =>
+    match natList? ds, nats? [scaled, minNum] with
+    | some ds, some [scaled, minNum] =>
+      match cliDbs st ds scaled with
+      | none => bad
+      | some (.error e) => (st, "err " ++ e)
+      | some (.ok dbs) =>
+        (st, match LcaCli.rankinfo (dbs.map anyHashvals) (fun mn h => dbs.map (fun x => lookDb mn x h)) minNum with
+          | some counts => "ok " ++ joinOr "," (counts.map toString)
+          | none => "ok -")
+    | _, _ => bad
+  | ["clicmp", opts, csv1, csv2] =>
+    let o := idxOpts opts
+    if o.startColumn < 2 then (st, "exit -1")
+    else
+      let o1 : LcaIndex.Opts := { o with startColumn := 3, noHeaders := false, splitIdents := false, keepVersions := false }
+      let o2 : LcaIndex.Opts := { o with splitIdents := false, keepVersions := false }
+      (st, match LcaIndex.loadTaxonomy o1 (csvRows csv1) with
+        | .error (.exit c) => s!"exit {c}"
+        | .error .exc => "err Exception"
+        | .ok (a0, _) => match LcaIndex.loadTaxonomy o2 (csvRows csv2) with
+          | .error (.exit c) => s!"exit {c}"
+          | .error .exc => "err Exception"
+          | .ok (a1, _) => match LcaCli.compareCsv a0 a1 with
+            | none => "err ValueError"
+            | some rows => "ok " ++ joinOr "|" (sortStrs (rows.map (fun (r : String × Bool × List Nat) =>
+                tokOf r.1 ++ "," ++ (if r.2.1 then "compatible" else "incompatible") ++ "," ++ showNames r.2.2))))
+  | "taxdb" :: fmt :: tabs =>
+    -- each table: `ident=lineage/ident=lineage`
+    let parseTab := fun (t : String) => if t = "-" then some [] else
+      (t.splitOn "/").mapM (fun e => match e.splitOn "=" with
+        | [i, l] => (lineage? l).map (fun lin => (nameOf i, lin))
+        | _ => none)
+    match tabs.mapM parseTab with
+    | none => bad
+    | some ts =>
+      let merged := ts.foldl (fun acc t => LcaCli.taxMerge acc t) []
+      if fmt = "sql" then
+        (st, match LcaCli.taxSqlRoundTrip merged with
+          | none => "err ProgrammingError"
+          | some (ranks, rows) =>
+            s!"ok n={rows.length} ranks={joinOr "," (ranks.map toString)} " ++
+              joinOr "|" (sortStrs (rows.map (fun (r : String × Lineage) => tokOf r.1 ++ "=" ++ showLineage r.2))))
+      else if fmt = "csv" then
+        (st, match LcaCli.taxCsvRows merged with
+          | none => "err ValueError"
+          | some rows => "ok " ++ joinOr "|" (sortStrs (rows.map (fun (r : String × List Nat) =>
+              tokOf r.1 ++ "=" ++ showNames r.2))))
+      else bad
+  | ["match", rank, la, lb] =>
+    match nat? rank, lineage? la, lineage? lb with
+    | some rank, some la, some lb =>
+      (st, match LcaCli.isLineageMatch la lb rank with
+        | some v => s!"ok {v}"
+        | none => "err AssertionError")
+    | _, _, _ => bad
+  | ["mklin", names] =>
+    match natList? names with
+    | some names => (st, "ok " ++ showLineage (LcaCli.makeLineage names))
+    | none => bad
+  | ["disp", lin] =>
+    match lineage? lin with
+    | some lin => (st, match LcaCli.zipLineage lin true with
+      | some names => "ok " ++ showNames names
+      | none => "err ValueError")
+    | none => bad
   | ["pop", rank, lin] =>
     match nat? rank, lineage? lin with
     | some rank, some lin => (st, "ok " ++ showLineage (popToRank lin rank))
